@@ -22,6 +22,11 @@ def obligations(ctx, prefix=""):
                                                               else "%d values %s..%s" % (len(v["ir"]), v["ir"][0], v["ir"][-1]))
                                                          for k, v in h.items()},
                "A4 of the clock edge per control word with the byte class pinned")
+        # the byte it latches is a byte of the program: the word that loads the IR is a word that reads the bus (a word without
+        # a bus access leaves the bus latch at 0, which the IR update would take for the opcode 0x00 and error-stop)
+        chk.ob(prefix + "ir-load-reads-bus/%#05x" % a, bool(g.mt.word[a]["busen"]) and bool(g.back[a]["bus_read"]),
+               "a control word that loads the instruction register reads the byte from the bus in the same word",
+               "control word %#05x" % a, "BUSEN=%s, Bus::read reached: %s" % (g.mt.word[a]["busen"], g.back[a]["bus_read"]))
     chk.floor("IR-loading control words", nl, 15)
 
 
@@ -62,3 +67,41 @@ def continue_resumes(ctx, prefix=""):
                    "the continue key resumes a regularly stopped machine in every micro state", p.need_body("%s::%s" % (ty, fn)).loc(),
                    "state after the key on a stopped machine with everything else unknown: %s" % (got,),
                    "A4 of trigger_key_continue on a machine whose every other field is unknown")
+
+
+def reset_control_state(ctx, prefix=""):
+    """both resets (and through them a program load) leave the micro-sequencer in the power-on control state - micro-address and
+    instruction register - whatever the machine was doing: what runs after a reset does not depend on the history before it
+    (shared by C09 and C15). -> (power-on micro-address, power-on IR)"""
+    from . import absint, step
+    from .facts import AnchorMissing
+    chk = ctx.chk
+    p = ctx.p
+    I = absint.Interp(p)
+    st = absint.State()
+    m0 = I.run_body(p.need_body(step.RM + "::new"), [], st, 0)
+    ma = I.new_alloc(st, "machine", m0)
+    a0 = step.field(p, I, st, ma, "microprogram_ram.current_index")
+    i0 = step.field(p, I, st, ma, "instruction_register.content.bits")
+    if not (isinstance(a0, int) and isinstance(i0, int)):
+        raise AnchorMissing("power-on micro-address / IR not constant: %r %r" % (a0, i0))
+    chk.note("power-on control state: micro-address %#x, IR %#x (constant-propagated from RawMachine::new)" % (a0, i0))
+
+    # "from reset": both resets and a program load leave the sequencer in that same control state, whatever the
+    # machine was doing (the dispatch of control word 0 depends on the IR: a stale opcode would select another routine)
+    for ty, meth in ((step.RM, "cpu_reset"), (step.RM, "master_reset"), (step.MACHINE, "cpu_reset"), (step.MACHINE, "master_reset")):
+        I2 = absint.Interp(p)
+        ov = step.machine_overrides(p, None, ["Running", "Stopped", "ErrorStopped"], None)
+        ov["instruction_register.content.bits"] = frozenset(range(256))
+        st2, ma2, _r = step.run_method(p, I2, "%s::%s" % (ty, meth), ov, ty=ty)
+        pre = "" if ty == step.RM else "raw."
+        a1 = step.field(p, I2, st2, ma2, pre + "microprogram_ram.current_index", ty=ty)
+        i1 = step.field(p, I2, st2, ma2, pre + "instruction_register.content.bits", ty=ty)
+        nm = "%s::%s" % (ty.rsplit("::", 1)[-1], meth)
+        chk.ob(prefix + "reset-control-state/%s" % nm, a1 == a0 and i1 == i0,
+               "a reset puts the sequencer into the power-on control state (micro-address and instruction register), "
+               "from any state", p.need_body("%s::%s" % (ty, meth)).loc(),
+               "after the call: micro-address %r, IR %r; power-on: %#x, %#x" % (a1, i1, a0, i0),
+               "A4 of the reset on a machine with every field unknown")
+
+    return a0, i0
